@@ -380,20 +380,40 @@ Proof.
   eapply (safe_bind (fun _ => True)); [auto with snd|intros s ts H; unfold rd_zblock; destruct ts as [|[| |] r]; exact I|].
   intros [[[sid' fresh] ok] data] _.
   apply safe_bind_get. intros s Hs ts.
-  destruct (negb (sid' =? sid)); [exact I|]. destruct (Bool.eqb fresh (zact_get s sid)); [exact I|].
+  destruct (negb (sid' =? sid)); [exact I|].
+  destruct (Bool.eqb fresh (zact_get s sid)); [destruct ((sid =? 0) && negb (fixed s 11)); exact I|].
   exact I.
+Qed.
+
+Lemma safe_rd_zblock (P : Z * bool * bool * list Z -> Prop) : (forall z, P z) -> safeP P rd_zblock.
+Proof. intros HP s ts _. unfold rd_zblock. destruct ts as [|[| |] r]; try exact I. apply HP. Qed.
+
+Lemma safe_rd_shared own other mark sid : safe (rd_shared own other mark sid).
+Proof.
+  unfold rd_shared.
+  eapply (safe_bind (fun _ => True)); [auto with snd|apply safe_rd_zblock; auto|].
+  intros [[[sid' fresh] ok] data] HT. apply safe_bind_get. intros s Hs ts.
+  destruct (negb (sid' =? sid)); [exact I|]. destruct (negb fresh && negb (own s)); [exact I|].
+  destruct fresh; [destruct (zact_get s 0); exact I|]. destruct (zact_get s 0 && negb (other s)); exact I.
+Qed.
+
+Lemma safe_rd_zlib_stream : safe rd_zlib_stream.
+Proof.
+  unfold rd_zlib_stream. apply safe_bind_get. intros s0 Hs0 ts. destruct (fixed s0 11).
+  - pose proof (safe_rd_stream 0 s0 ts Hs0) as H. unfold bind. destruct (rd_stream 0 s0 ts); auto.
+  - apply (safe_rd_shared c_zlibz c_zrlez (fun s => set_zlibz s true) 0 s0 ts Hs0).
 Qed.
 
 Lemma safe_dec_zlib x y w h : 0 <= x -> 0 <= y -> 0 <= w -> 0 <= h -> safe (dec_zlib x y w h).
 Proof.
   intros Hx Hy Hw Hh. unfold dec_zlib. apply safe_bind_get. intros s Hs ts. revert ts.
   set (need := w * h * bypp_of s). set (cap := if c_rawsz s <? need then need else c_rawsz s).
-  assert (G : safe (bind (upd_st (fun s0 => set_rawsz s0 cap)) (fun _ => bind (rd_stream 0) (fun r =>
+  assert (G : safe (bind (upd_st (fun s0 => set_rawsz s0 cap)) (fun _ => bind rd_zlib_stream (fun r =>
              let '(ok, data) := r in if negb ok then failM else if cap <? zlen data then failM else
              bind (if zlen data <? need then upd_st set_taint else ret tt)
                   (fun _ => copy_rect x y w h (px_of_bytes (bypp_of s) (firstn (Z.to_nat need) data))))))).
   { eapply safe_bind; [auto with snd|apply safe_upd|]. intros _ _.
-    eapply safe_bind; [auto with snd|apply safe_rd_stream|]. intros [ok data] _.
+    eapply safe_bind; [auto with snd|apply safe_rd_zlib_stream|]. intros [ok data] _.
     destruct (negb ok); [apply safe_fail|]. destruct (cap <? zlen data); [apply safe_fail|].
     eapply (safe_bind (fun _ => True)); [destruct (zlen data <? need); auto with snd| |].
     - destruct (zlen data <? need); [apply safe_upd|apply safe_ret; exact I].
